@@ -396,10 +396,6 @@ Section ProviderProofs.
   Qed.
 
   (* --- consequences *)
-  Definition out_ok (r : req) : Prop :=
-    match r_out r with Returns st => final st = true | Raises => True end.
-  Definition reqs_ok (es : list pevent) : Prop :=
-    Forall (fun e => match e with EvReq r => out_ok r | _ => True end) es.
 
   Lemma hist_step s e id r :
     In (id, r) (p_hist (fst (pstep s e))) -> In (id, r) (p_hist s) \/ e = EvReq r.
@@ -559,10 +555,6 @@ Section ProviderProofs.
   Qed.
 
   (* the worker left alone comes to rest: one Take/Finish round per outstanding operation *)
-  Fixpoint drain (n : nat) : list pevent :=
-    match n with O => [] | S k => EvTake :: EvFinish :: drain k end.
-  Definition outstanding (s : pstate) : nat :=
-    (length (p_queue s) + match p_cur s with Some _ => 1 | None => 0 end)%nat.
 
   Lemma drains n : forall s, (outstanding s <= n)%nat -> quiescent (fst (prun s (drain n))) = true.
   Proof.
